@@ -526,7 +526,11 @@ class InventoryWorkingTree(WorkingTree, MutableInventoryTree):
                             else:
                                 message = backup(f)
                         else:
-                            if f in files_to_backup:
+                            # An unversioned path is never deleted without
+                            # force, even when iter_changes did not report it
+                            # as unversioned (its path is still a path of the
+                            # basis tree, e.g. after "remove --keep").
+                            if f in files_to_backup or (not fid and not force):
                                 message = backup(f)
                             else:
                                 osutils.delete_any(abs_path)
